@@ -1626,12 +1626,27 @@ def r_nbest(m, rep, R):
     sort_i = fr_i = None
     fr = None
     sort_node = None
+    sort_env = sort_scope = sort_obj = None
     for i, st in enumerate(tail):
         if strip(st).kind == 'CXXMemberCallExpr':
             t = term(st, env)
             if t[0] == 'mcall' and t[2] == 'sort' and (not t[3] or getattr(m, 'goal_is_list', False)) and canon(t[1]) in cell_names:
                 sort_i = i
                 sort_node = strip(st)
+        if strip(st).kind == 'CallExpr' and getattr(m, 'goal_is_list', False) and sort_i is None:
+            # the sort handed to a helper of the header whose whole body is `list.sort(<comparator>)`
+            t = term(st, env)
+            hf = getattr(env, 'functions', {}).get(t[1]) if t[0] == 'call' and isinstance(t[1], str) else None
+            if hf is not None and len(t[2]) == 1 and canon(t[2][0]) in cell_names and len(cxx.params_of(hf)) == 1:
+                hb = cxx.body_of(hf)
+                hs = [strip(x) for x in hb.kids]
+                if len(hs) == 1 and hs[0].kind == 'CXXMemberCallExpr' and strip(hs[0].kids[0]).name == 'sort':
+                    henv = cxx.Env(hf)
+                    ht = term(hs[0], henv)
+                    if ht[0] == 'mcall' and ht[1] == V(cxx.params_of(hf)[0].name):
+                        sort_i = i
+                        sort_node = hs[0]
+                        sort_env, sort_scope, sort_obj = henv, hf, V(cxx.params_of(hf)[0].name)
         if st.kind == 'CXXForRangeStmt':
             fr_i, fr = i, st
     rep.check(sort_i is not None and fr_i is not None and sort_i < fr_i, R, _w(tail[0].line if tail else m.main_loop.line), 'nbest:sort-before-output',
@@ -1663,7 +1678,7 @@ def r_nbest(m, rep, R):
         # a plain list of finished items, sorted where it is used:  finished.sort(<comparator>)
         ok, detail, line = False, 'the list of finished items is not sorted', m.main_loop.line
         if sort_node is not None:
-            ok, detail = _descending_sort(m, sort_node, env, m.ps, V(m.goal))
+            ok, detail = _descending_sort(m, sort_node, sort_env or env, sort_scope or m.ps, sort_obj or V(m.goal))
             line = sort_node.line
         rep.check(ok, R, _w(line), 'nbest:sort-order', 'the finished items are ordered by descending score (%s)' % detail, 'sort of the finished items: ' + detail)
     else:
